@@ -102,6 +102,42 @@ fn t_c10(rng: &mut Rng, g: &mut GenCfg, w: &mut WorldCfg) {
     w.ids_every = 0;
 }
 
+fn t_c05(rng: &mut Rng, g: &mut GenCfg, w: &mut WorldCfg) {
+    base_removals(rng, g);
+    g.w[W_PROTECT] = *rng.pick(&[0, 1]);
+    g.pct_invalid = 0;
+    g.restart_formats = match rng.below(4) {
+        0 => vec![Format::JsonInline],
+        1 => vec![Format::JsonCompact, Format::JsonInline],
+        2 => vec![Format::JsonInclude],
+        _ => vec![Format::JsonInclude, Format::JsonInline, Format::JsonCompact],
+    };
+    g.w[W_RESTART] = *rng.pick(&[4, 8]);
+    g.pct_ann_id = *rng.pick(&[0, 50, 100]);
+    g.pct_data_id = *rng.pick(&[0, 30, 70]);
+    w.io_noise = rng.chance(1, 2);
+    w.ids_every = 6;
+}
+
+fn t_c11(rng: &mut Rng, g: &mut GenCfg, w: &mut WorldCfg) {
+    base_removals(rng, g);
+    g.w[W_PROTECT] = *rng.pick(&[0, 1, 2]);
+    g.pct_invalid = 0;
+    g.restart_formats = vec![Format::Cbor];
+    g.w[W_RESTART] = *rng.pick(&[4, 8]);
+    w.io_noise = rng.chance(1, 2);
+    w.ids_every = 6;
+}
+
+fn t_c15(rng: &mut Rng, g: &mut GenCfg, w: &mut WorldCfg) {
+    base_removals(rng, g);
+    g.pct_invalid = 0;
+    g.restart_formats = vec![Format::Csv];
+    g.w[W_RESTART] = *rng.pick(&[3, 6]);
+    w.io_noise = rng.chance(1, 2);
+    w.ids_every = 6;
+}
+
 fn t_c14(rng: &mut Rng, g: &mut GenCfg, w: &mut WorldCfg) {
     g.pct_invalid = *rng.pick(&[30, 50]);
     g.w[W_ANNOTATE_BATCH] = *rng.pick(&[0, 6, 10]);
@@ -163,6 +199,36 @@ pub fn profiles() -> Vec<Profile> {
             owners: &["C10"],
             level: "exploration",
             tweak: t_c10,
+            quick_runs: 4000,
+            thorough_runs: 200000,
+            rule: STATE_RULE,
+        },
+        Profile {
+            property: "C05",
+            engine: "stamsim-lockstep",
+            owners: &["C05"],
+            level: "exploration",
+            tweak: t_c05,
+            quick_runs: 4000,
+            thorough_runs: 200000,
+            rule: STATE_RULE,
+        },
+        Profile {
+            property: "C11",
+            engine: "stamsim-lockstep",
+            owners: &["C11"],
+            level: "exploration",
+            tweak: t_c11,
+            quick_runs: 4000,
+            thorough_runs: 200000,
+            rule: STATE_RULE,
+        },
+        Profile {
+            property: "C15",
+            engine: "stamsim-lockstep",
+            owners: &["C15"],
+            level: "exploration",
+            tweak: t_c15,
             quick_runs: 4000,
             thorough_runs: 200000,
             rule: STATE_RULE,
